@@ -150,6 +150,43 @@ class Gen:
     def starts_step(self, t):
         return any(t.startswith(k) for k, _ in self.steps_all)
 
+    INVISIBLE = ["\u200f", "\u200e", "\u061c", "\u2060", "\u00ad", "\u200b", "\ufeff", "\u034f", "\u200d"]
+
+    def near_miss(self, roles, steps):
+        """A line that is ALMOST a keyword line which would end the description here — a listed keyword of this dialect with an
+        invisible (non-blank) character in front, another apostrophe, another case, another normalisation form, a full-width
+        colon, a no-break blank inside, or its trailing blank missing.  It is not a listed keyword, hence free text; the
+        caller's filters (and the check that no listed keyword prefixes it) keep only those that really are none."""
+        import unicodedata as ud
+        r = self.r
+        cands = [(k, ":") for role in roles for k in self.spec[role]]
+        if steps:
+            cands += [(k, "") for k, _ in self.steps_all if k.strip() != "*"]
+        if not cands:
+            return None
+        quoted = [c for c in cands if "'" in c[0] or "\u2019" in c[0]]
+        k, colon = r.choice(quoted) if quoted and r.random() < 0.5 else r.choice(cands)
+        vs = [r.choice(self.INVISIBLE) + k + colon, k[0].swapcase() + k[1:] + colon, ud.normalize("NFD", k) + colon, ud.normalize("NFC", k) + colon,
+              (k.upper() if k.upper() != k else k.lower()) + colon]
+        if "'" in k:
+            vs += [k.replace("'", a) + colon for a in ("\u2019", "\u02bc", "\u2032")] * 2
+        if "\u2019" in k:
+            vs += [k.replace("\u2019", "'") + colon] * 4
+        if colon:
+            vs.append(k + "\uff1a")
+        if " " in k.strip():
+            vs.append(k.strip().replace(" ", "\u00a0", 1) + k[len(k.rstrip()):] + colon)
+        if not colon and k.endswith(" "):
+            vs.append(k[:-1])
+        vs = [v for v in vs if v != k + colon]
+        if not vs:
+            return None
+        v = r.choice(vs)
+        line = v + (" " if colon else "") + "near miss"
+        if self.starts_any_title(line) or self.starts_step(line):
+            return None
+        return line
+
     def desc_text_line(self, ctx):
         roles, steps, table = CTX[ctx]
         r = self.r
@@ -157,6 +194,11 @@ class Gen:
             c = r.random()
             if c < 0.6:
                 t = self.text(12, False)
+            elif c < 0.72 and (steps or roles):
+                t = self.near_miss(roles, steps)
+                if t is None:
+                    continue
+                self.stat("desc.near_miss_keyword")
             else:
                 opts = [self.spec["feature"][0] + ": decoy", '"""', "```"]
                 if "examples" not in roles:
